@@ -370,7 +370,21 @@ func rulePublication(c *core.Ctx) {
 		// cacheGet before Get
 		cg := callVertices(g, "pdf.(*Extractor).cacheGet")
 		get := callVerticesSuffix(g, ".Get")
-		o.Require(len(cg) == 1 && len(get) >= 1 && g.Dominates(cg[0].V, get[0].V), "the cache is not consulted before a reference is followed")
+		// (through cacheGet, or directly when that helper was folded in)
+		var consults []*core.V
+		for _, x := range cg {
+			consults = append(consults, x.V)
+		}
+		for _, lk := range cacheLookups(g, "cache") {
+			consults = append(consults, lk.V)
+		}
+		okConsult := false
+		for _, cv := range consults {
+			if len(get) >= 1 && g.Dominates(cv, get[0].V) {
+				okConsult = true
+			}
+		}
+		o.Require(okConsult, "the cache is not consulted before a reference is followed")
 		// no blocking constructs at all
 		ast.Inspect(fn.Decl.Body, func(n ast.Node) bool {
 			switch x := n.(type) {
@@ -383,10 +397,24 @@ func rulePublication(c *core.Ctx) {
 			}
 			return true
 		})
-		// the decode function runs without the lock: no Lock in Decode
-		for _, csite := range core.CallsIn(info, fn.Decl, true) {
-			if strings.HasSuffix(csite.Key, ".Lock") {
-				o.FailAt(fn.Site(csite.Call, ""), "Decode takes a lock directly")
+		// the decode function and the object fetch run without the lock
+		lo := &core.LockOps{Info: info, IsMutex: core.MutexField(info, "pdf", "Extractor", "mu")}
+		lst := lo.Analyze(g)
+		for _, v := range g.Vs {
+			if v.AST == nil || !lst.MaybeAt[v] {
+				continue
+			}
+			for _, csite := range core.CallsIn(info, v.AST, false) {
+				if csite.Fn == nil || strings.HasSuffix(csite.Key, ".Get") {
+					// a call through a function value (the decode callback) or a fetch of another object
+					if _, isConv := info.Types[csite.Call.Fun]; isConv && info.Types[csite.Call.Fun].IsType() {
+						continue
+					}
+					if strings.HasPrefix(csite.Key, "builtin.") {
+						continue
+					}
+					o.FailAt(fn.Site(csite.Call, ""), "%s is called while the extractor's lock may be held (mutually referential objects would deadlock)", c.Prog.Src(csite.Call.Fun))
+				}
 			}
 		}
 	})
